@@ -43,6 +43,11 @@ func c08Eval(cs c08Case) *Case {
 	if cs.DataYml {
 		put("data/site.yml", key+": datayml\n")
 	}
+	// data files that define nothing (an empty file, a stub with every example commented out, an explicit null document): they must
+	// leave what theme.yml and the other data files define in place
+	put("data/aa-empty.yml", "")
+	put("data/mm-null.yaml", "--- ~\n")
+	put("data/zz-stub.yml", "---\n# "+key+": commented-out\n")
 	body := fmt.Sprintf(`<p>[mustache:{{ %[1]s }}]</p><p :title="%[1]s">[attr]</p><i v-if="%[1]s == 'fm'">[if:fm]</i><i v-if="%[1]s == 'assign'">[if:assign]</i><i v-if="%[1]s == 'fill'">[if:fill]</i><i v-if="%[1]s == 'fill2'">[if:fill2]</i><i v-if="%[1]s == 'datayml'">[if:datayml]</i><i v-if="%[1]s == 'theme'">[if:theme]</i><b v-if="%[1]s">[truthy:yes]</b>`, key)
 	page := body
 	if cs.FM {
